@@ -15,6 +15,7 @@ package manifest
 import (
 	"fmt"
 	"runtime"
+	"strings"
 	"testing"
 
 	"github.com/ovrclk/akash/util/verifhook"
@@ -99,7 +100,7 @@ func TestVerif_C10(t *testing.T) {
 			if len(sub.Replies) > 0 && sub.Replies[0] == "nil" {
 				res.Count("manager_accepted", 1)
 			}
-			if len(sub.Replies) > 0 && sub.Replies[0] == ErrManifestVersion.Error() {
+			if len(sub.Replies) > 0 && strings.Contains(sub.Replies[0], ErrManifestVersion.Error()) {
 				res.Count("manager_rejected_wrong_version", 1)
 			}
 		}
